@@ -285,9 +285,11 @@ def run(case):
     try:
         if case['kind'] == 'nf':
             _run_nf(o, case, sc)
+            _own_count(o, 1)
             res = o.result()
         else:
             pulls = _run_noisy(o, case, sc)
+            _own_count(o, len(case['trials']))
             res = o.result()
             res['pulls'] = pulls
         # in-situ contract evaluations are reported separately from this property's own evaluations
@@ -334,6 +336,21 @@ def _in_island(rows, island, z):
     return out
 
 
+def _own_count(o, own):
+    """evaluations = finder runs of this property; the evaluations of the armed C04/C17 contracts are reported apart"""
+    o.count('insitu_contract_evaluations', max(0, o.n_eval - own))
+    o.n_eval = own
+
+
+def _invariants(o, rows, what):
+    """the row-level catalogue invariants of C03 stay armed on every catalogue this workload produces"""
+    from aegmon.refs import catalog_inv
+    full = [r for r in rows if 'uuid' in r and 'flags' in r and 'psf_a' in r]
+    if full:
+        catalog_inv.check_components(full, lambda c, w: o.violate('catalogue_invariant_' + c, dict(w, where=what)),
+                                     lambda n, k=1: o.count('catalogue_invariant_' + n, k))
+
+
 def _near(rows, truth, case):
     """components within two beam major axes of the injected position"""
     lim = 2 * max(case['beam'][0], truth['a'] / 3600.0)
@@ -371,6 +388,8 @@ def _run_nf(o, case, sc):
     finally:
         _disarm()
     o.n_nontrivial += 1
+    if case.get('via') != 'cli':
+        _invariants(o, rows, 'noise-free closed loop')
     o.see('projection', case['proj'])
     o.see('via', case.get('via'))
     o.see('docov', case['docov'])
@@ -432,6 +451,7 @@ def _run_noisy(o, case, sc):
             _disarm()
         o.count('noisy_trials')
         o.n_nontrivial += 1
+        _invariants(o, rows, 'noisy closed loop')
         o.see('noisy_mode', 'docov' if t['docov'] else 'nocov')
         if t.get('bane'):
             o.count('noisy_trials_internal_bane')
